@@ -2,7 +2,9 @@ ENTRY = {
     "level": "proof",
     "families": [fam("C04", 40, 1200)],
     "gen_items": [],
-    "rule": "sqlgen statements (strata filter/join/agg/distinct/setop/sort_limit/cte/subquery, no cross joins) over generated catalogs of 1-3 tables "
+    "rule": "60% sqlgen statements (strata filter/join/agg/distinct/setop/sort_limit/cte/subquery, no cross joins), 40% hand-written aggregate templates over an "
+            "UNALIASED table (0/1/2 group keys of any type, COUNT(*)/SUM/MIN/MAX/COUNT over an integer column, optional integer WHERE) - the only logical shape that "
+            "reaches MorselAggregateExec and its dense variant (sqlgen aliases every table); generated catalogs of 1-3 tables "
             "(0..300 rows, NULL densities 0/10/50/100 %); each statement on the same rows as one memory batch per table, as the generated memory batches, "
             "as Parquet with 1..4 files per table x max row-group size drawn from {1, 7, 64, 1024}, and as one Parquet file with one row group; every Parquet "
             "layout under four planner-path variants in separate child processes (default / QE_VERIF_FORCE_STREAMING_SCAN=1 / QE_VERIF_NO_PRESCAN=1 / both), "
@@ -16,9 +18,10 @@ ENTRY = {
     "assumptions": [
         "statements whose in-memory single-batch run fails or returns more than 1500 rows are not used",
         "files stay far below the 400 MB thresholds: the streaming-scan and no-prescan paths are reached through the verif-hooks flags, the morsel "
-        "aggregation path through the planner's own routing of aggregates over Parquet providers",
+        "aggregation path through the planner's own routing of aggregates over unaliased Parquet tables (recorded per case as path:<variant>:<operator> tags from ctx.physical_plan)",
     ],
-    "min_tags": {"variant:d": 1, "variant:s": 1, "variant:n": 1, "files:multi": 1, "rg:1": 1, "rg:1024": 1},
+    "min_tags": {"variant:d": 1, "variant:s": 1, "variant:n": 1, "files:multi": 1, "rg:1": 1, "rg:1024": 1,
+                 "path:d:MorselAggregate": 1, "path:s:StreamingParquetScan": 1, "path:d:MemoryTableScan": 1, "path:n:StreamingParquetScan": 1},
     "manifest": {
         "category": "proof",
         "text": "Lean theorems: the reference semantics Spec.run depends only on the bag of rows of each table, so any two cuts of the same rows into files, row "
